@@ -208,7 +208,7 @@ def rule_R02_2(ctx):
                "the generated parser module contains i64 arithmetic other "
                "than the negated integer literal: %s" % gen_sites[:4])
     r.require_floor("checked_* i64 primitives (anchor that i64 arithmetic is "
-                    "visible)", n_checked, 4)
+                    "visible)", n_checked, 1)
     r.ok()
     return r
 
